@@ -19,6 +19,7 @@ import (
 	"github.com/kstenerud/go-concise-encoding/configuration"
 	"github.com/kstenerud/go-concise-encoding/cte"
 	"github.com/kstenerud/go-concise-encoding/iterator"
+	"github.com/kstenerud/go-concise-encoding/types"
 )
 
 func init() { checks["C17"] = checkC17; checks["C17-stress-child"] = c17StressChild }
@@ -33,6 +34,12 @@ type c17A struct {
 	S string
 	N *c17A // recursive: generation looks the type up again
 }
+// c17F: generation fails (no iterator / builder exists for a channel)
+type c17F struct {
+	X int
+	C chan int
+}
+type c17G struct{ X int }
 type c17B struct {
 	Y []string
 	M map[string]int
@@ -128,14 +135,26 @@ var gateInstallMu sync.Mutex
 // runSchedule executes one schedule against a fresh shared session. kind: "iterator" | "builder".
 // Returns per-process output (document text or value), error text, and a problem description.
 func runSchedule(kind string, want map[int]string, sched [][]interface{}) (outs map[int]string, problem string, diverged bool) {
+	return runScheduleF(kind, want, sched, false)
+}
+
+// failing: type "A" is one whose generation fails (Cache.tla FailTypes = {"A"}).
+func runScheduleF(kind string, want map[int]string, sched [][]interface{}, failing bool) (outs map[int]string, problem string, diverged bool) {
 	cfg := configuration.New()
 	g := &gateSched{procOf: map[int]int{}, parked: map[int]string{}, release: map[int]chan struct{}{}, gen: map[int]bool{},
 		tracked: map[reflect.Type]bool{reflect.TypeOf(c17A{}): true, reflect.TypeOf(c17B{}): true}}
 	values := map[string]interface{}{"A": c17A{X: 1, S: "s", N: &c17A{X: 2}}, "B": c17B{Y: []string{"p"}, M: map[string]int{"k": 1}}}
+	if failing {
+		values["A"] = c17F{X: 1}
+		g.tracked[reflect.TypeOf(c17F{})] = true
+	}
 	gateInstallMu.Lock()
 	defer gateInstallMu.Unlock()
 	docs := map[string][]byte{}
 	for tn, v := range values {
+		if _, isF := v.(c17F); isF {
+			v = c17G{X: 1}
+		}
 		d, err := ce.MarshalToCBEDocument(v, cfg)
 		if err != nil {
 			machineryFail("C17: cannot marshal %s: %v", tn, err)
@@ -171,6 +190,9 @@ func runSchedule(kind string, want map[int]string, sched [][]interface{}) (outs 
 				defer func() {
 					if r := recover(); r != nil {
 						out = fmt.Sprintf("PANIC: %v", r)
+						if failing {
+							out = "PANIC" // who reports the failure (generator or waiter) decides the wording
+						}
 					}
 				}()
 				switch kind {
@@ -269,17 +291,21 @@ func checkC17(c *Check) {
 		procs string
 		want  string
 		wantM map[int]string
+		fail  bool
 	}
-	cfgs := []cfgT{{"{1, 2}", "[p \\in {1, 2} |-> \"A\"]", map[int]string{1: "A", 2: "A"}}}
+	cfgs := []cfgT{{"{1, 2}", "[p \\in {1, 2} |-> \"A\"]", map[int]string{1: "A", 2: "A"}, false},
+		// the same with a type whose generation fails: everybody gets the error, nobody blocks
+		{"{1, 2}", "[p \\in {1, 2} |-> \"A\"]", map[int]string{1: "A", 2: "A"}, true}}
 	if c.Tier == "thorough" {
-		cfgs = append(cfgs, cfgT{"{1, 2, 3}", "[p \\in {1, 2, 3} |-> IF p = 3 THEN \"B\" ELSE \"A\"]", map[int]string{1: "A", 2: "A", 3: "B"}})
+		cfgs = append(cfgs, cfgT{"{1, 2, 3}", "[p \\in {1, 2, 3} |-> IF p = 3 THEN \"B\" ELSE \"A\"]", map[int]string{1: "A", 2: "A", 3: "B"}, false},
+			cfgT{"{1, 2, 3}", "[p \\in {1, 2, 3} |-> IF p = 3 THEN \"B\" ELSE \"A\"]", map[int]string{1: "A", 2: "A", 3: "B"}, true})
 	} else {
-		cfgs = append(cfgs, cfgT{"{1, 2, 3}", "[p \\in {1, 2, 3} |-> \"A\"]", map[int]string{1: "A", 2: "A", 3: "A"}})
+		cfgs = append(cfgs, cfgT{"{1, 2, 3}", "[p \\in {1, 2, 3} |-> \"A\"]", map[int]string{1: "A", 2: "A", 3: "A"}, false})
 	}
 	for _, cf := range cfgs {
 		var scheds [][][]interface{}
 		params := paramsModuleExt("Integers", nil, "WantV == "+cf.want)
-		cfgText := "SPECIFICATION Spec\nINVARIANT RunsFinal\nINVARIANT Emit\nCONSTANTS\n Procs = " + cf.procs + "\n Types = {\"A\", \"B\"}\n Want <- WantV\n FailTypes = {}\n Deviations = {}\n"
+		cfgText := "SPECIFICATION Spec\nINVARIANT RunsFinal\nINVARIANT Emit\nCONSTANTS\n Procs = " + cf.procs + "\n Types = {\"A\", \"B\"}\n Want <- WantV\n FailTypes = " + map[bool]string{false: "{}", true: "{\"A\"}"}[cf.fail] + "\n Deviations = {}\n"
 		res := mustTLC(TLCRun{Module: "CacheMC", Cfg: cfgText, Extra: map[string]string{"VerifParams.tla": params}, Workers: 4, Timeout: 20 * time.Minute,
 			OnLine: func(p string) {
 				var cs cacheSched
@@ -296,19 +322,22 @@ func checkC17(c *Check) {
 		}
 		diverged := 0
 		for _, kind := range []string{"iterator", "builder"} {
-			ref, _, _ := runSchedule(kind, map[int]string{1: "A"}, nil)
-			refB, _, _ := runSchedule(kind, map[int]string{1: "B"}, nil)
+			ref, _, _ := runScheduleF(kind, map[int]string{1: "A"}, nil, cf.fail)
+			refB, _, _ := runScheduleF(kind, map[int]string{1: "B"}, nil, cf.fail)
+			if cf.fail && ref[1] != "PANIC" {
+				machineryFail("C17: the failing type does not fail sequentially (%s session): %q", kind, ref[1])
+			}
 			expect := map[string]string{"A": ref[1], "B": refB[1]}
 			for i := 0; i < limit; i++ {
 				sc := scheds[(i*7919+int(c.Seed))%len(scheds)]
-				outs, problem, div := runSchedule(kind, cf.wantM, sc)
+				outs, problem, div := runScheduleF(kind, cf.wantM, sc, cf.fail)
 				hasWait := false
 				for _, st := range sc {
 					if st[1] == "wait" {
 						hasWait = true
 					}
 				}
-				c.Count(fmt.Sprint(kind, sc), hasWait)
+				c.Count(fmt.Sprint(kind, cf.fail, sc), hasWait)
 				if div {
 					diverged++
 					if diverged <= 3 {
@@ -324,7 +353,7 @@ func checkC17(c *Check) {
 					}
 				}
 				if bad != "" {
-					c.Violation(fmt.Sprintf("%s session, schedule %v: %s", kind, sc, bad), map[string]interface{}{"kind": "cache-schedule", "session": kind, "want": cf.wantM, "schedule": sc, "problem": bad})
+					c.Violation(fmt.Sprintf("%s session, schedule %v: %s", kind, sc, bad), map[string]interface{}{"kind": "cache-schedule", "session": kind, "want": cf.wantM, "schedule": sc, "problem": bad, "failing_type": cf.fail})
 				}
 				if i == 0 {
 					c.Sample(map[string]interface{}{"session": kind, "schedule": sc})
@@ -335,7 +364,7 @@ func checkC17(c *Check) {
 		if diverged*4 > limit {
 			machineryFail("C17: %d of %d schedules could not be followed on the real code (hook points no longer match Cache.tla)", diverged, limit)
 		}
-		fmt.Printf("  C17 schedules (%s): %d from TLC, %d replayed per session kind, %d not followable\n", cf.procs, len(scheds), limit, diverged)
+		fmt.Printf("  C17 schedules (%s, failing generation %v): %d from TLC, %d replayed per session kind, %d not followable\n", cf.procs, cf.fail, len(scheds), limit, diverged)
 	}
 
 	// 3. race detector child
@@ -407,6 +436,25 @@ type stressT3 struct {
 	Z string `ce:"order=1"`
 }
 
+// stressWide is marshaled, stressNarrow is the template: every other field has to be skipped
+// (ignore builders for edges, nodes, lists, maps, arrays, records of the format).
+type stressWide struct {
+	A  int
+	E  types.Edge
+	B  int
+	N  types.Node
+	L  []interface{}
+	M  map[string]interface{}
+	U  []uint16
+	E2 types.Edge
+	Z  string
+}
+type stressNarrow struct {
+	A int
+	B int
+	Z string
+}
+
 func c17StressChild(c *Check) {
 	cfg := configuration.New()
 	rounds := 30
@@ -436,7 +484,53 @@ func c17StressChild(c *Check) {
 	for i, v := range vals {
 		seq[i] = one(v, ce.NewCBEMarshaler(cfg), ce.NewCTEMarshaler(cfg), ce.NewCBEUnmarshaler(cfg))
 	}
+	// Edges are marshaled without an end event and built without one (known finding edge-value-without-end),
+	// so this part runs the way such documents can be read at all: rule checks off on both sides.
+	nrcfg := configuration.New()
+	nrcfg.Marshal.EnforceRules = false
+	wides := make([][]byte, 8)
+	wideWant := make([]string, 8)
+	for i := range wides {
+		w := stressWide{A: i, E: types.Edge{Source: "s", Description: []interface{}{1, 2}, Destination: i}, B: i * 2, N: types.Node{Value: i, Children: []interface{}{1, types.Node{Value: 2}}},
+			L: []interface{}{1, []interface{}{2, 3}}, M: map[string]interface{}{"k": map[string]interface{}{"j": 1}}, U: []uint16{1, 2}, E2: types.Edge{Source: 1, Description: 2, Destination: 3}, Z: fmt.Sprint("z", i)}
+		d, err := ce.MarshalToCBEDocument(w, nrcfg)
+		if err != nil {
+			fmt.Printf("STRESS-SETUP-FAILED %v\n", err)
+			os.Exit(3)
+		}
+		wides[i] = d
+		back, err := ce.UnmarshalFromCBEDocument(d, stressNarrow{}, nrcfg)
+		wideWant[i] = fmt.Sprintf("%s|%v", absValue(back), err)
+		if err != nil || !strings.Contains(wideWant[i], fmt.Sprint("z", i)) {
+			fmt.Printf("STRESS-SETUP-FAILED %v %s\n", err, wideWant[i])
+			os.Exit(3)
+		}
+	}
 	for round := 0; round < rounds; round++ {
+		// separate unmarshalers skipping unknown fields (edges, nodes, containers, arrays)
+		var wg0 sync.WaitGroup
+		for gi := 0; gi < 8; gi++ {
+			gi := gi
+			wg0.Add(1)
+			go func() {
+				defer wg0.Done()
+				defer func() {
+					if r := recover(); r != nil {
+						fmt.Printf("STRESS-MISMATCH goroutine %d panicked: %v\n", gi, r)
+					}
+				}()
+				u := ce.NewCBEUnmarshaler(nrcfg)
+				for k := 0; k < 20; k++ {
+					back, err := u.UnmarshalFromDocument(wides[gi], stressNarrow{})
+					if g := fmt.Sprintf("%s|%v", absValue(back), err); g != wideWant[gi] {
+						fmt.Printf("STRESS-MISMATCH separate unmarshalers skipping unknown fields, document %d: %s vs %s\n", gi, g, wideWant[gi])
+						return
+					}
+				}
+				fmt.Println("STRESS-OK")
+			}()
+		}
+		wg0.Wait()
 		// shared sessions, first use of the types races on the caches
 		var isess iterator.Session
 		var bsess builder.Session
